@@ -242,6 +242,92 @@ def _deref_is(t, sterm, fa):
     return False
 
 
+def rule_value_flow(prog, res):
+    """Q-flow: what is written / rebuilt is exactly the entry's own satellite id, signal id (through the table) and bias."""
+    for num, (mod, idbits, maxid) in MODS.items():
+        fe, fd = prog.fn(mod + "::encode"), prog.fn(mod + "::decode")
+        if fe is None or fd is None:
+            continue
+        adt = prog.adts.get("%s::Msg%sCodeBias" % (mod, num))
+        if adt is None:
+            res.missing("Q-flow", "%s::Msg%sCodeBias" % (mod, num))
+            continue
+        fields = [x["name"] for x in adt["variants"][0]["fields"]]
+        i_sat, i_sig, i_bias = fields.index("satellite_id"), fields.index("signal_id"), fields.index("bias_m")
+        # ---- decode
+        da = FA(fd, prog)
+        okd = False
+        d = ""
+        pushes = [(b, da.call_args(b)) for b, t in fd.calls() if (callee_of(t) or "").endswith("DataVec::<T, N>::push")]
+        if len(pushes) == 1:
+            v = pushes[0][1][1]
+            d = show(v, da.names)[:200]
+            if v.op == "agg" and len(v.args[3]) == 3:
+                sat, sig, bias = v.args[3][i_sat], v.args[3][i_sig], v.args[3][i_bias]
+
+                def parsed(t, w):
+                    return t.op == "field" and t.args[1] == 0 and t.args[0].op == "downcast" and t.args[0].args[1] == 0 and t.args[0].args[0].op == "call" \
+                        and t.args[0].args[0].args[0].endswith("Try>::branch") and t.args[0].args[0].args[1][0].op == "call" \
+                        and t.args[0].args[0].args[1][0].args[0] == PARSE and is_const(t.args[0].args[0].args[1][0].args[1][1]) \
+                        and const_val(t.args[0].args[0].args[1][0].args[1][1]) == w
+                oks = parsed(sat, idbits)
+                okg = sig.op == "field" and sig.args[1] == 0 and sig.args[0].op == "downcast" and sig.args[0].args[1] == 1 and sig.args[0].args[0].op == "call" \
+                    and sig.args[0].args[0].args[0] == mod + "::to_sig" and parsed(sig.args[0].args[0].args[1][0], 5)
+                okd = oks and okg
+        res.ob("Q-flow", "%s decode | each entry = (parsed %d-bit satellite id, to_sig(parsed 5-bit id), decoded bias)" % (num, idbits), okd, d, fd.loc, sample=d)
+        # ---- encode: signal id and bias come from the element currently written
+        ea = FA(fe, prog)
+        puts = [(b, ea.call_args(b), t) for b, t in fe.calls() if callee_of(t) == PUT]
+        elem = None
+        oksig = False
+        for b, a, t in puts:
+            v = a[1]
+            if v.op == "field" and v.args[1] == 0 and v.args[0].op == "downcast" and v.args[0].args[1] == 1 and v.args[0].args[0].op == "call" \
+                    and v.args[0].args[0].args[0] == mod + "::to_id" and is_const(a[2]) and const_val(a[2]) == 5:
+                x = v.args[0].args[0].args[1][0]      # memval(*item.signal_id)
+                y = x
+                while y.op in ("memval",):
+                    y = y.args[0]
+                if y.op == "pf" and y.args[1] == i_sig:
+                    z = y.args[0]
+                    while z.op in ("mem", "memval"):
+                        z = z.args[0]
+                    if z.op == "field" and z.args[0].op == "downcast" and z.args[0].args[0].op == "call" and "Filter" in z.args[0].args[0].args[0]:
+                        elem = z
+                        oksig = True
+        res.ob("Q-flow", "%s encode | the 5-bit signal id written is to_id(entry.signal_id) of the entry being written" % num, oksig, "", fe.loc)
+        okb = False
+        if elem is not None:
+            for b, a, t in puts:
+                g = libmodel.carrier_of(t.get("rargs") or t.get("cargs"))
+                if g and g[0] == "I16":
+                    for x in subterms(a[1]):
+                        if x.op == "memval" and x.args[0].op == "pf" and x.args[0].args[1] == i_bias:
+                            z = x.args[0].args[0]
+                            while z.op in ("mem", "memval"):
+                                z = z.args[0]
+                            if z is elem:
+                                okb = True
+                    # phis: look into operands
+                    st = [a[1]]
+                    seen = set()
+                    while st and not okb:
+                        x = st.pop()
+                        if not isinstance(x, T) or x in seen:
+                            continue
+                        seen.add(x)
+                        if x.op == "phi":
+                            st.extend(w for _, w in ea.phi_operands(x))
+                        if x.op == "memval" and x.args[0].op == "pf" and x.args[0].args[1] == i_bias:
+                            z = x.args[0].args[0]
+                            while z.op in ("mem", "memval"):
+                                z = z.args[0]
+                            if z is elem:
+                                okb = True
+                        st.extend(y for y in x.args if isinstance(y, T))
+        res.ob("Q-flow", "%s encode | the bias written is quantised from the same entry's bias_m" % num, okb, "", fe.loc)
+
+
 def rule_tables(prog, res):
     """Q-tab: SSR signal tables are mutually inverse and fit 5 bits."""
     for num, (mod, idbits, maxid) in MODS.items():
